@@ -36,9 +36,22 @@ pub fn roundtrip(arg: &str) -> (bool, String) {
     if payload.len() > 7609 {
         return (true, "payload above 7609 bytes accepted".into());
     }
+    // optional 4th field "w<N>": a writer that takes at most N bytes per `write` call (allowed by std::io::Write)
+    let per_write = parts.get(3).and_then(|w| w.strip_prefix('w')).and_then(|n| n.parse::<usize>().ok());
     let mut out: Vec<u8> = Vec::new();
-    if msg.send(&mut out).is_err() {
-        return (true, "send failed on a Vec writer".into());
+    match per_write {
+        None => {
+            if msg.send(&mut out).is_err() {
+                return (true, "send failed on a Vec writer".into());
+            }
+        }
+        Some(max) => {
+            let mut w = ShortWriter { max, out: Vec::new() };
+            if msg.send(&mut w).is_err() {
+                return (false, "send reported the short write as an error".into());
+            }
+            out = w.out;
+        }
     }
     // expected packets, from the statement
     let mut exp: Vec<u8> = Vec::new();
@@ -78,4 +91,15 @@ pub fn roundtrip(arg: &str) -> (bool, String) {
         }
     }
     (false, format!("{n} packets, round trip ok"))
+}
+
+/// A writer that accepts at most `max` bytes per call and says so, as `std::io::Write::write` permits.
+struct ShortWriter { max: usize, out: Vec<u8> }
+impl std::io::Write for ShortWriter {
+    fn write(&mut self, buf: &[u8]) -> std::io::Result<usize> {
+        let n = buf.len().min(self.max);
+        self.out.extend_from_slice(&buf[..n]);
+        Ok(n)
+    }
+    fn flush(&mut self) -> std::io::Result<()> { Ok(()) }
 }
